@@ -12,8 +12,8 @@ def obligations(tier):
     obs = []
     for wi in range(C07.NW):
         for wd in (True, False):
-          obs.append(Ob("C07.omission/ctx%02d/%s" % (wi, "dom" if wd else "etree"), "crosshair", "harness.C07:omission", T, param={"wrap": wi, "nheads": 1 if q else 4, "wdom": wd, "tails": [0, 3] if q else None},
-                      bounds="parent context %r x %d^2 child pairs x 4 separators x %d heads x %d tails; %s builder + walker; omit_optional_tags=True" % (C07.WRAPS[wi][0], len(C07.WRAPS[wi][1]), 1 if q else 4, 2 if q else 4, "dom" if wd else "etree"),
+          obs.append(Ob("C07.omission/ctx%02d/%s" % (wi, "dom" if wd else "etree"), "crosshair", "harness.C07:omission", T, param={"wrap": wi, "nheads": 1 if q else 4, "wdom": wd, "tails": [0, 3] if q else None, "nseps": 2 if q else 4},
+                      bounds="parent context %r x %d^2 child pairs x 2/4 separators x %d heads x %d tails; %s builder + walker; omit_optional_tags=True" % (C07.WRAPS[wi][0], len(C07.WRAPS[wi][1]), 1 if q else 4, 2 if q else 4, "dom" if wd else "etree"),
                       encodes=["html5lib/filters/optionaltags.py:Filter.*", "html5lib/serializer.py:HTMLSerializer.serialize", "html5lib/html5parser.py:HTMLParser.mainLoop"]))
         obs.append(Ob("C07.options/ctx%02d" % wi, "crosshair", "harness.C07:options", T, param={"wrap": wi, "astep": 6 if q else 1, "wdom": True if q else None},
                       bounds="parent context %r x adjacent child pairs x every combination of optional-tag omission, 3 quoting modes, quote char, boolean minimisation, trailing solidus (+space), escape_lt_in_attrs, attribute sorting x {etree, dom}" % (C07.WRAPS[wi][0],),
